@@ -10,6 +10,25 @@ CHECKS = {
    design_ref="6 / C12",
    note="Trusted: Lean kernel, axioms propext/Classical.choice/Quot.sound at most, the hand model (validated exhaustively on the small alphabet, sampled beyond), C-locale isspace. Static resolution in Promela/VHDL output (Trie) is covered by the trie suite of this check."),
 }
+ENGINE_NOTE = "Trusted: the hand models Model.Large/Model.Fast/Model.Exec and the transcription Spec.W3C of Appendix D (tied to the compiled interpreter by the differential suites on the full monitor alphabet), Xerces, the null datamodel; executable content fragment: raise/send/log/if/failing send; no invoke, no delayed send."
+CHECKS.update({
+ "C01": dict(category="exploration",
+   technique="three-way differential: compiled interpreter = Lean model of LargeMicroStep = Lean transcription of W3C Appendix D (Lean theorems about the model: in progress)",
+   text="Every input must satisfy I = Model.Large on the full monitor alphabet and abs(I) = Spec.W3C.run (Appendix D); inputs in the two recorded finding classes must follow the specification with exactly the documented quirk. Seeded random charts + corpus of witnesses of the eight repaired defects. No unbounded theorem yet connects Model.Large with Spec.W3C, hence 'exploration' and not 'proof'.",
+   design_ref="6 / C01", note=ENGINE_NOTE),
+ "C02": dict(category="exploration",
+   technique="Spec.Legal.legal (Lean, decidable) evaluated on every configuration both compiled engines report; invariant proof about the model in progress",
+   text="Every configuration reported after every step() of both engines is checked against Recommendation 3.11 by the Lean predicate; root entered once and never exited; one recorded finding class (nested history).",
+   design_ref="6 / C02", note=ENGINE_NOTE),
+ "C03": dict(category="exploration",
+   technique="direct differential of the two compiled engines on the full observation alphabet + each against its Lean model",
+   text="Large and Fast engines run the same charts/histories; traces (monitor notifications, logs, step() results, configurations) must be identical, and each equals its Lean model.",
+   design_ref="6 / C03", note=ENGINE_NOTE),
+ "C13": dict(category="exploration",
+   technique="Lean stack automaton Spec.Nesting.check run over every notification trace of both compiled engines",
+   text="Well-nestedness and once-per-macrostep stable notice are decided by the Lean checker on every trace, including runs with failing elements at random positions and top-level finals.",
+   design_ref="6 / C13", note=ENGINE_NOTE),
+})
 PENDING = {}   # id -> reason (filled while the framework is being built)
 
 def main():
